@@ -42,7 +42,7 @@ ASSUMPTIONS = {
             'feasibility clause uses the estimator\'s own measure model.primal_feasibility(marginals) < 1.0'],
 }
 TIERS = {
-    'C16': {'quick': dict(runs=2400, budget_s=200, hashseeds=4, minimise_s=90),
+    'C16': {'quick': dict(runs=1600, budget_s=480, hashseeds=4, minimise_s=90),
             'thorough': dict(runs=None, budget_s=600, hashseeds=16, minimise_s=240)},
     'C18': {'quick': dict(runs=480, budget_s=240, hashseeds=4, minimise_s=120, grace_s=240),
             'thorough': dict(runs=None, budget_s=900, hashseeds=16, minimise_s=300, grace_s=300)},
@@ -155,7 +155,10 @@ def gen_case(rnd, prop, tier):
         for k in range(rnd.choice([1, 2, 3, 3, 4])):
             calls.append(dict(seed=rnd.getrandbits(32), scale=rnd.choice([0.3, 1.0, 3.0, 8.0, 8.0, 60.0, 400.0]), total=rnd.choice([1.0, 1.0, 10.0, 250.0, 1e4]),
                               sweeps=rnd.choice(['enough', 'enough', 'split', 1, 2, 5]), sub=rnd.random() < 0.25,
-                              damp_up=(oracle == 'gbp' and k > 0 and rnd.random() < 0.2)))
+                              damp_up=(oracle == 'gbp' and k > 0 and rnd.random() < 0.2), ninf=0.0,
+                              restore=(k > 0 and rnd.random() < 0.25)))
+        if rnd.random() < 0.12:
+            calls[-1]['ninf'] = rnd.choice([0.1, 0.25])      # structural zeros (-inf entries) in the last call's potentials; one joint cell stays possible
         return dict(engine='F', attrs=attrs, sizes=sizes, cliques=cliques, oracle=oracle, structure=structure, calls=calls,
                     damping=rnd.choice([0.5, 0.5, 0.5, 0.25, 0.75, 0.9]) if oracle == 'gbp' else None,
                     clone_at=rnd.randrange(len(calls)) if rnd.random() < 0.2 else None,
@@ -280,15 +283,25 @@ def run_c16(mbi, case):
         # another oracle object over the same attribute names with another clique set is built (and stays alive) in between
         decoy, _ = guard(lambda: mbi.FactorGraph(dom, [(a,) for a in attrs], 1.0, convex=False, iters=1), 'FactorGraph')
         faults['second-oracle-object-same-attributes'] = 1
+    saved_messages = None
     for ci, call in enumerate(case['calls']):
         r = random.Random(call['seed'])
         total = call['total']
         pots = {}
         pots_in = []
+        rw = random.Random(call['seed'] + 17)
+        witness = {a: rw.randrange(dom.config[a]) for a in attrs}
         for cl in obj.cliques:
             shape = [dom.config[a] for a in cl]
             on = (tuple(cl) in [tuple(m) for m in maximal]) or kind == 'loopy' or call['sub']
             arr = np.array([r.gauss(0, call['scale']) if on else 0.0 for _ in range(int(np.prod(shape)))]).reshape(shape)
+            if call.get('ninf') and on and arr.size > 1:
+                wit = tuple(witness[a] for a in cl)
+                mask = np.array([r.random() < call['ninf'] for _ in range(arr.size)]).reshape(shape)
+                mask[wit] = False
+                arr[mask] = -np.inf
+                if mask.any():
+                    faults['minus-inf-potentials'] = faults.get('minus-inf-potentials', 0) + 1
             pots[cl] = mbi.Factor(dom.project(cl), arr.copy())
             pots_in.append((list(cl), arr))
         if call['sub'] and kind == 'gbp' and len(obj.cliques) > len(maximal):
@@ -308,6 +321,14 @@ def run_c16(mbi, case):
                 viol.append(v.as_dict())
                 break
             faults['continued-on-deep-copy'] = 1
+        if call.get('restore') and ci > 0 and saved_messages is not None:
+            # what LocalInference.mirror_descent_auto does on a restart: the messages saved before the previous call are put back
+            obj.messages = saved_messages
+            faults['messages-restored-to-earlier-snapshot'] = faults.get('messages-restored-to-earlier-snapshot', 0) + 1
+        saved_messages, v = guard(lambda: copy.deepcopy(obj.messages), 'deepcopy(messages):' + kind)
+        if v:
+            viol.append(v.as_dict())
+            break
         if call.get('damp_up') and hasattr(obj, 'damping'):
             obj.damping = (0.9 + obj.damping) / 2.0         # what LocalInference.mirror_descent_auto does to the oracle it holds
             faults['damping-raised-between-calls'] = faults.get('damping-raised-between-calls', 0) + 1
@@ -333,7 +354,8 @@ def run_c16(mbi, case):
             obj.iters = sweeps
             mu, v = guard(lambda: obj.belief_propagation(theta), 'belief_propagation:' + kind)
         steps += sweeps
-        tag = 'oracle=%s call#%d sweeps=%d total=%g %s%s' % (kind, ci, sweeps, total, 'warm' if ci else 'cold', ' tie-permuted' if tie else '')
+        has_ninf = any(np.isneginf(a_).any() for _, a_ in pots_in)
+        tag = 'oracle=%s call#%d sweeps=%d total=%g %s%s%s' % (kind, ci, sweeps, total, 'warm' if ci else 'cold', ' tie-permuted' if tie else '', ' minus-inf-potentials' if has_ninf else '')
         hist.append((sweeps if sweeps < 6 else ('split' if split else 'enough'), ci > 0 and case['calls'][ci - 1]['total'] != total))
         if v:
             viol.append(v.as_dict())
@@ -350,11 +372,11 @@ def run_c16(mbi, case):
             arr = np.asarray(mu[cl].values, dtype=float)
             digests.append(core.arr_digest(arr))
             if not np.all(np.isfinite(arr)) or arr.min() < 0:
-                viol.append(Violation('c16-valid', 'c16-valid:' + kind, 'pseudo-marginal on %s has non-finite or negative entries (%s)' % (cl, tag)).as_dict())
+                viol.append(Violation('c16-valid', 'c16-valid:' + kind + (':minus-inf' if has_ninf else ''), 'pseudo-marginal on %s has non-finite or negative entries (%s)' % (cl, tag)).as_dict())
                 bad = True
                 break
             if abs(arr.sum() - total) > (1e-9 if big_scale <= 8 else 1e-6) * total:     # beliefs of magnitude ~1e3 and more cannot be normalised to 1e-9
-                viol.append(Violation('c16-normalised', 'c16-normalised:' + kind, 'pseudo-marginal on %s sums to %r, total is %r (%s)' % (cl, float(arr.sum()), total, tag)).as_dict())
+                viol.append(Violation('c16-normalised', 'c16-normalised:' + kind + (':minus-inf' if has_ninf else ''), 'pseudo-marginal on %s sums to %r, total is %r (%s)' % (cl, float(arr.sum()), total, tag)).as_dict())
                 bad = True
                 break
         if bad:
@@ -374,7 +396,7 @@ def run_c16(mbi, case):
                 want = refmodel.marginal(logp, attrs, total, cl)
                 got = np.asarray(mu[cl].values, dtype=float)
                 if tuple(mu[cl].domain.attrs) != tuple(cl) or got.shape != want.shape or np.max(np.abs(got - want)) > 1e-6 * total:
-                    viol.append(Violation('c16-exact', 'c16-exact:%s%s' % (kind, ':sub-region-potentials' if call['sub'] and kind == 'gbp' else ''),
+                    viol.append(Violation('c16-exact', 'c16-exact:%s%s%s' % (kind, ':sub-region-potentials' if call['sub'] and kind == 'gbp' else '', ':minus-inf' if has_ninf else ''),
                                           'acyclic structure %s: pseudo-marginal on %s differs from the exact marginal by %.3g (total %g, %s)' % (
                                               cliques, cl, refmodel.maxerr(got, want), total, tag)).as_dict())
                     bad = True
